@@ -182,7 +182,10 @@ def namespace(cfg, root):
     for k in KINDS:
         kd = cfg["kinds"].get(k)
         plural = {"argparse_function": "argparse_functions", "class": "classes", "function": "functions"}[k]
-        d[plural] = None if kd is None else [os.path.join(root, f["name"]) for f in kd["files"]]
+        names = None if kd is None else [os.path.join(root, f["name"]) for f in kd["files"]]
+        if names and k == cfg["truth"] and cfg.get("truth_last") and len(names) > 1:
+            names = names[1:] + names[:1]  # (API only: the truth is named by `truth_file`, not by its place in the list)
+        d[plural] = names
         d[k + "_names"] = None if kd is None else [kd["name"]]
     return Namespace(**d)
 
